@@ -92,7 +92,12 @@ fn handler(world: &Arc<Mutex<World>>) -> Handler {
             None => false,
         };
         g.log.push((name.to_string(), RV::from_value(&param), fail));
-        if fail {
+        if fail && t % 2 == 1 {
+            // the failure of a user function that itself evaluated an inner ruleset and propagated
+            // its outcome with `?`: a reval error naming the *inner* function
+            let inner = reval::Error::UserFunctionError { function: format!("inner#{t}"), error: anyhow::anyhow!("inner failure") };
+            (Err(anyhow::Error::new(inner)), 0)
+        } else if fail {
             (Err(anyhow::Error::new(Injected(t))), 0)
         } else {
             (Ok(token_value(t).to_value()), 0)
